@@ -381,6 +381,17 @@ def do_replay(pid, path, ctx, props, impl, tables):
         print("replay names a broken obligation, not an input: %s" % json.dumps(r.get("no_longer_checks"))[:500])
         return 1
     line, extra = r["input"]["line"], r["input"].get("extra", {})
+    if extra.get("repeat"):
+        (o1, o2), = props.fresh_repeat([line])
+        here = impl.eval_guarded(line)
+        print("fresh interpreter, first : " + o1[:200])
+        print("fresh interpreter, second: " + o2[:200])
+        print("this interpreter         : " + here[:200])
+        if not (o1 == o2 == here):
+            print("VIOLATION property=%s replay=%s" % (pid, path))
+            return 1
+        print("replay passes")
+        return 0
     if "threads" in extra or "table" in extra:
         # C13 direct check: run the recorded corpus again (concurrently / watching the tables)
         corpus = extra.get("corpus") or [line]
